@@ -521,6 +521,9 @@ func cmdCheck(args []string) int {
 			sweepFns++
 			continue
 		}
+		if len(con.NoRteKinds) > 0 {
+			assumptions = append(assumptions, con.Key+": not claimed for this function: "+strings.Join(con.NoRteKinds, ", "))
+		}
 		if con.NoRte {
 			assumptions = append(assumptions, con.Key+": absence of run-time errors is NOT claimed for this function (norte): only its contract clauses are proved, assuming execution does not panic")
 		} else if con.NoNil {
